@@ -417,6 +417,8 @@ where
                                 .into(),
                             );
                             ldap.controls = Some(controls);
+                            // The previous page's result is not the result of the Search.
+                            stream.res = None;
                             let new_stream = match ldap
                                 .streaming_search(
                                     &self.base,
